@@ -156,6 +156,8 @@ func c17Run(in0 interface{}) Result {
 		return c17RunParse(in)
 	case "site":
 		return c17RunSite(in)
+	case "chunkread":
+		return c17RunChunkRead(in)
 	case "listener":
 		return c17RunListener(in)
 	case "hdr431":
@@ -719,6 +721,16 @@ func c17GenDeep(r *Rand, tier string) []interface{} {
 					splits = append(splits, sp)
 				}
 				for si, sp := range splits {
+					if consumer == 0 && n <= 700 { // the same wire through the limits middleware in-process: decoded bytes, error
+						var script, bufs []int
+						for k := r.Intn(6); k > 0; k-- {
+							script = append(script, r.Range(1, 40))
+						}
+						for k := r.Range(1, 3); k > 0; k-- {
+							bufs = append(bufs, []int{1, 2, 3, 7, 64, l, l + 1, l + 2, 4096}[r.Intn(9)])
+						}
+						out = append(out, &c17In{Kind: "chunkread", Limit: lim, BodyLen: n, Chunks: sp, ChunkStyle: (si + n) % 4, Script: script, Bufs: bufs})
+					}
 					out = append(out, &c17In{Kind: "site", Consumer: consumer, Chunked: true, Limit: lim, BodyLen: n, Chunks: sp, ChunkStyle: (si + consumer + n) % 4})
 				}
 			}
@@ -1098,51 +1110,7 @@ func c17RunSite(in *c17In) Result {
 			sb.WriteString("Trailer: X-Sum, X-Note\r\n")
 		}
 		sb.WriteString("Transfer-Encoding: chunked\r\n\r\n")
-		sizes := in.Chunks
-		if len(sizes) == 0 {
-			step := 1 + in.BodyLen/7
-			if step > 8000 {
-				step = 8000
-			}
-			for i := 0; i < len(body); i += step {
-				if i+step > len(body) {
-					sizes = append(sizes, len(body)-i)
-				} else {
-					sizes = append(sizes, step)
-				}
-			}
-		}
-		sizeLine := func(n, k int) string {
-			switch in.ChunkStyle {
-			case 1:
-				return fmt.Sprintf("%x;seq=%d", n, k)
-			case 2:
-				return fmt.Sprintf("00%X;note=\"a;b=c\"", n)
-			case 3:
-				return fmt.Sprintf("%x;x", n)
-			}
-			return fmt.Sprintf("%x", n)
-		}
-		i := 0
-		for k, n := range sizes {
-			if n <= 0 || i+n > len(body) {
-				continue
-			}
-			sb.WriteString(sizeLine(n, k) + "\r\n")
-			sb.Write(body[i : i+n])
-			sb.WriteString("\r\n")
-			i += n
-		}
-		if i < len(body) { // (a replay file whose sizes do not add up: the rest as one chunk)
-			fmt.Fprintf(&sb, "%x\r\n", len(body)-i)
-			sb.Write(body[i:])
-			sb.WriteString("\r\n")
-		}
-		sb.WriteString(sizeLine(0, len(sizes)) + "\r\n")
-		if in.ChunkStyle == 3 {
-			fmt.Fprintf(&sb, "X-Sum: %d\r\nX-Note: after the last chunk\r\n", len(body))
-		}
-		sb.WriteString("\r\n")
+		sb.Write(c17ChunkedWire(in, body))
 	} else {
 		fmt.Fprintf(&sb, "Content-Length: %d\r\n\r\n", len(body))
 		sb.Write(body)
@@ -1243,6 +1211,111 @@ func c17RunSite(in *c17In) Result {
 	term := cApp("CSite", cN(uint64(in.Consumer)), cBool(in.Chunked), cZ(in.Limit), cNat(in.BodyLen), cZ(int64(status)), cZ(backend), cBool(prefix), cZ(int64(followup)))
 	return Result{Term: term, Obs: map[string]interface{}{"status": status, "backend_received": backend, "backend_prefix_ok": prefix, "pipelined_followup": followup},
 		Sig: sig, Class: fmt.Sprintf("site:%s:%s:%s", kind, framing, ow), Nontrivial: over}
+}
+
+// c17ChunkedWire frames body as chunks of the sizes in.Chunks (default: a 7-way split) in the spelling in.ChunkStyle
+// selects, ending with the last-chunk, the trailer fields of style 3 and the empty line.
+func c17ChunkedWire(in *c17In, body []byte) []byte {
+	var sb bytes.Buffer
+	sizes := in.Chunks
+	if len(sizes) == 0 {
+		step := 1 + in.BodyLen/7
+		if step > 8000 {
+			step = 8000
+		}
+		for i := 0; i < len(body); i += step {
+			if i+step > len(body) {
+				sizes = append(sizes, len(body)-i)
+			} else {
+				sizes = append(sizes, step)
+			}
+		}
+	}
+	sizeLine := func(n, k int) string {
+		switch in.ChunkStyle {
+		case 1:
+			return fmt.Sprintf("%x;seq=%d", n, k)
+		case 2:
+			return fmt.Sprintf("00%X;note=\"a;b=c\"", n)
+		case 3:
+			return fmt.Sprintf("%x;x", n)
+		}
+		return fmt.Sprintf("%x", n)
+	}
+	i := 0
+	for k, n := range sizes {
+		if n <= 0 || i+n > len(body) {
+			continue
+		}
+		sb.WriteString(sizeLine(n, k) + "\r\n")
+		sb.Write(body[i : i+n])
+		sb.WriteString("\r\n")
+		i += n
+	}
+	if i < len(body) { // (a replay file whose sizes do not add up: the rest as one chunk)
+		fmt.Fprintf(&sb, "%x\r\n", len(body)-i)
+		sb.Write(body[i:])
+		sb.WriteString("\r\n")
+	}
+	sb.WriteString(sizeLine(0, len(sizes)) + "\r\n")
+	if in.ChunkStyle == 3 {
+		fmt.Fprintf(&sb, "X-Sum: %d\r\nX-Note: after the last chunk\r\n", len(body))
+	}
+	sb.WriteString("\r\n")
+
+	return sb.Bytes()
+}
+
+// the real limits middleware over a chunked request as net/http parses it from the wire (http.ReadRequest gives the
+// request the same chunked body reader the server uses); the handler behind it reads with the given buffer sizes,
+// cycling, until the first error
+func c17RunChunkRead(in *c17In) Result {
+	fail := func(msg string) Result {
+		return Result{Term: "(CStatus false 0%Z)", Obs: msg, Class: "chunkread:setup-error", Sig: "chunkread:setup-error", Direct: msg}
+	}
+	body := bodyOf(in.BodyLen)
+	wire := c17ChunkedWire(in, body)
+	hdr := "POST /up HTTP/1.1\r\nHost: c17.test\r\n"
+	if in.ChunkStyle == 3 {
+		hdr += "Trailer: X-Sum, X-Note\r\n"
+	}
+	raw := append([]byte(hdr+"Transfer-Encoding: chunked\r\n\r\n"), wire...)
+	// the connection delivers the bytes in pieces of the sizes in.Script (then all that is left)
+	req, err := http.ReadRequest(bufio.NewReaderSize(&scriptReader{data: raw, script: append([]int(nil), in.Script...)}, 4096)) // the server's connection buffer size
+	if err != nil {
+		return fail("ReadRequest: " + err.Error())
+	}
+	cfg, err := setupDirective("limits", fmt.Sprintf("limits {\n body /up %d\n}\n", in.Limit))
+	if err != nil {
+		return fail("setup: " + err.Error())
+	}
+	var got []byte
+	code := 0
+	bufs := in.Bufs
+	if len(bufs) == 0 {
+		bufs = []int{512}
+	}
+	inner := handlerFunc(func(w http.ResponseWriter, r *http.Request) (int, error) {
+		for i := 0; i < 1000000; i++ {
+			p := make([]byte, bufs[i%len(bufs)])
+			n, err := r.Body.Read(p)
+			got = append(got, p[:n]...)
+			if err != nil {
+				code = c17ErrCode(err)
+				break
+			}
+		}
+		return 0, nil
+	})
+	compile(cfg.Middleware(), inner).ServeHTTP(httptest.NewRecorder(), req)
+	over := int64(in.BodyLen) > in.Limit
+	trailerOK := true
+	if in.ChunkStyle == 3 && code == 1 {
+		trailerOK = req.Trailer.Get("X-Sum") == strconv.Itoa(in.BodyLen)
+	}
+	term := cApp("CChunkRead", cZ(in.Limit), cBytes(wire), cNat(in.BodyLen), cBytes(got), cN(uint64(code)), cBool(trailerOK))
+	return Result{Term: term, Obs: map[string]interface{}{"delivered_len": len(got), "err": code, "wire_len": len(wire), "trailer_ok": trailerOK},
+		Sig: fmt.Sprintf("chunkread:style%d:over=%v", in.ChunkStyle, over), Class: fmt.Sprintf("chunkread:style%d:over=%v:err%d", in.ChunkStyle, over, code), Nontrivial: true}
 }
 
 func c17RunHdr431(in *c17In) Result {
